@@ -1,3 +1,89 @@
 package main
 
-func (e *Env) doLayout(op *Op) {}
+// An independent walk of the bytes of a segment file (no ice code involved): footer,
+// stored-section trailer, fields index and doc-value index. The numbers it reports are
+// judged by the Layout operators of the specification (C10).
+
+import (
+	"encoding/binary"
+	"fmt"
+)
+
+func (e *Env) doLayout(op *Op) {
+	data, ok := e.files[op.File]
+	if !ok {
+		e.emit(M{"ev": "skip", "op": "layout"})
+		return
+	}
+	res := layoutOf(data)
+	e.emit(M{"ev": "layout", "file": op.File, "res": res})
+}
+
+func layoutOf(data []byte) (res M) {
+	defer func() {
+		if r := recover(); r != nil {
+			res = M{"kind": "unparsable", "msg": trunc(fmt.Sprint(r), 200)}
+		}
+	}()
+	if len(data) < 44 {
+		return M{"kind": "unparsable", "msg": "short"}
+	}
+	f := data[len(data)-44:]
+	numDocs := binary.BigEndian.Uint64(f[0:8])
+	stored := binary.BigEndian.Uint64(f[8:16])
+	fieldsIdx := binary.BigEndian.Uint64(f[16:24])
+	dv := binary.BigEndian.Uint64(f[24:32])
+	body := data[:len(data)-44]
+	res = M{"kind": "ok", "numDocs": clampInt(numDocs),
+		"chunkMode": clampInt(uint64(binary.BigEndian.Uint32(f[32:36]))),
+		"version":   clampInt(uint64(binary.BigEndian.Uint32(f[36:40])))}
+	// stored section trailer: ... offsets(varints) | uint32 offsetsLen | uint32 chunkNum | stored index (8 bytes per doc)
+	chunkNum := binary.BigEndian.Uint32(body[stored-4 : stored])
+	offLen := binary.BigEndian.Uint32(body[stored-8 : stored-4])
+	res["storedChunkNum"] = clampInt(uint64(chunkNum))
+	offs := body[stored-8-uint64(offLen) : stored-8]
+	var offsets []uint64
+	for len(offs) > 0 {
+		v, n := binary.Uvarint(offs)
+		if n <= 0 {
+			panic("bad chunk offset varint")
+		}
+		offsets = append(offsets, v)
+		offs = offs[n:]
+	}
+	res["storedOffsets"] = len(offsets)
+	magic := true
+	nonEmpty := 0
+	for i := 0; i+1 < len(offsets); i++ {
+		if offsets[i+1] > offsets[i] {
+			nonEmpty++
+			b := body[offsets[i]:offsets[i+1]]
+			if len(b) < 4 || b[0] != 0x28 || b[1] != 0xb5 || b[2] != 0x2f || b[3] != 0xfd {
+				magic = false
+			}
+		}
+	}
+	res["storedBlocks"] = nonEmpty
+	res["zstdMagic"] = magic
+	res["storedIndexLen"] = clampInt(uint64(len(body)) - stored)
+	// the stored index runs up to the next section; its first numDocs entries are 8 bytes each
+	nfields := (uint64(len(body)) - fieldsIdx) / 8
+	res["nfields"] = clampInt(nfields)
+	dvChunks := []int{}
+	if dv != ^uint64(0) && numDocs > 0 { // like the loader: no doc values in an empty segment
+		p := body[dv:]
+		for i := uint64(0); i < nfields; i++ {
+			st, n := binary.Uvarint(p)
+			p = p[n:]
+			en, n2 := binary.Uvarint(p)
+			p = p[n2:]
+			if st == ^uint64(0) {
+				continue
+			}
+			_ = st
+			dvChunks = append(dvChunks, clampInt(binary.BigEndian.Uint64(body[en-8:en])))
+		}
+	}
+	res["dvChunks"] = dvChunks
+	return res
+}
